@@ -82,6 +82,8 @@ TARGETS = [
     # ---- Gen_bkg.v (C11) ----
     dict(gen='Gen_bkg', file='photutils/background/background_2d.py', qual='Background2D._good_npixels_threshold',
          name='gen_good_npixels_threshold', sorts={}),
+    dict(gen='Gen_bkg', kind='var', var='box_mask', file='photutils/background/background_2d.py',
+         qual='Background2D._compute_box_statistics', name='gen_box_mask', sorts={'ngood': Z}, elementwise=True),
 ]
 
 # which generated files (in build order) + GenEq file each property's harness adds to its FILES
